@@ -200,6 +200,7 @@ class Impl:
 
     # ---- mapped functions (mirror of `fnMenu` in lean/OptreeModel/Model/Eval.lean)
     def user_fn(self, fid, variant, log):
+        from universe import USER_CLASSES
         u = self.u
 
         def fresh(i):
@@ -238,6 +239,12 @@ class Impl:
                 return (fresh(i), fresh(1000 + i)) if i % 2 == 0 else [fresh(i)]
             if fid == 6:
                 return {'b': fresh(i), 'a': [fresh(1000 + i), None]}
+            if fid == 7:        # class 2: registered in namespace 'a' only
+                return USER_CLASSES[2](None, [fresh(i), fresh(1000 + i)])
+            if fid == 8:        # class 4: registered in namespace 'b' only
+                return USER_CLASSES[4](None, [fresh(i), fresh(1000 + i)])
+            if fid == 9:        # class 0: registered globally
+                return USER_CLASSES[0](1, [(fresh(i),), first_obj(args)])
             raise BadOp('fn')
 
         return f
